@@ -264,6 +264,12 @@ impl Epoch {
         self.weekday_in_time_scale(TimeScale::TAI)
     }
 
+    /// Returns the weekday of the Gregorian date of this epoch in its own time scale, i.e. of the date
+    /// printed by `Display` and by the `%Y %m %d` format tokens (1900-01-01 was a Monday).
+    pub(crate) fn weekday_of_gregorian_date(&self) -> Weekday {
+        Self::from_tai_duration(self.duration + self.time_scale.gregorian_epoch_offset()).weekday()
+    }
+
     #[must_use]
     /// Returns weekday in UTC timescale
     pub fn weekday_utc(&self) -> Weekday {
